@@ -44,9 +44,9 @@ CLAUSES = {
         "tie: Lean Gen == Template.code line by line (stream i) and Spec.render (Interp) == Template.generate() (stream ii); "
         "gen_balanced, control_body_nonempty, gen_stack_balanced; interp_matches_gen_structure_partial / "
         "interp_matches_gen_outcome_partial: on the decidable fragment `frag` (text, expression, raw/module, if/elif/else, "
-        "for/else over finite lists, any whitespace mode and autoescape function) the interpreter's outcome equals the "
+        "for/else over finite lists, set, break, continue, any whitespace mode and autoescape function) the interpreter's outcome equals the "
         "denotation `pyRun` of the generated line list (parse_flat_roundtrip, bytes_literal_roundtrip are its generic parts); "
-        "outside the fragment (set, apply, block/extends/include, while, try, break/continue) tie only "
+        "outside the fragment (apply, block/extends/include, while, try, import) tie only "
         "(interp_matches_gen_structure_goal)",
     "templates that are not well-formed raise a ParseError naming the correct line":
         "parse_error_line, unterminated_error_line, lex_line_invariant + fault-injection oracle (file and line span of the injected fault)",
@@ -57,7 +57,7 @@ CLAUSES = {
 PARALLEL = False   # measured: 2600 cases take 3 s in-process, 20 s through a fork pool
 CASE_TIMEOUT = 20
 LEVEL_NOTE = ("interp_matches_gen_structure (semantics of the generated Python) is proved on the fragment `frag` "
-              "(interp_matches_gen_structure_partial, sem = pyRun of PySem.lean); for set/apply/block/include/while/try it "
+              "(interp_matches_gen_structure_partial, sem = pyRun of PySem.lean); for apply/block/include/while/try it "
               "stays a Prop covered by the two tie streams")
 
 # ----------------------------------------------------------------------------------------------- pools
